@@ -1,9 +1,10 @@
-#!/usr/bin/env python3
+#!/venv/bin/python
 import json, sys
 from pathlib import Path
 ROOT = Path(__file__).resolve().parent.parent
 sys.path.insert(0, str(ROOT))
-from harness.registry import CLAIMED, ALL, PENDING_REASON, NOT_APPLICABLE  # noqa
+from harness.registry import claimed, ALL, PENDING_REASON, NOT_APPLICABLE  # noqa
+CLAIMED = claimed()
 
 base = json.load(open("/root/.vp/BASELINE.json")) if Path("/root/.vp/BASELINE.json").exists() else None
 checks = []
